@@ -606,6 +606,34 @@ func genConsts() string {
 			fmt.Fprintf(&sb, "def websockets_shimBodySharedBuffers : List String := [%s]  -- %s ShimBody: buffers allocated once per ShimBody call and used inside the per-response hook\n", strings.Join(shared, ", "), srel)
 		}
 	}
+	// the backend transports of hostProxy: idle/ping/response timeouts on them would cut a response that pauses
+	{
+		rel := "agent/agent.go"
+		hp := mustFunc(parseFile(rel), rel, "", "hostProxy")
+		var limits []string
+		ast.Inspect(hp, func(n ast.Node) bool {
+			switch x := n.(type) {
+			case *ast.KeyValueExpr:
+				if k := src(x.Key); strings.HasSuffix(k, "Timeout") || k == "MaxResponseHeaderBytes" {
+					limits = append(limits, strconv.Quote(k))
+				}
+			case *ast.AssignStmt:
+				for _, l := range x.Lhs {
+					if sel, ok := l.(*ast.SelectorExpr); ok && strings.HasSuffix(sel.Sel.Name, "Timeout") {
+						limits = append(limits, strconv.Quote(sel.Sel.Name))
+					}
+				}
+			}
+			return true
+		})
+		fmt.Fprintf(&sb, "def agent_backendTransportTimeouts : List String := [%s]  -- %s hostProxy: timeout fields set on the transports towards the backend\n", strings.Join(limits, ", "), rel)
+	}
+	// the bridge frontend closes client connections gracefully: SetLinger(0) would discard data still queued for the client
+	{
+		rel := "utils/tcpbridge/tcp-bridge-frontend/tcp-bridge-frontend.go"
+		txt := src(parseFile(rel))
+		fmt.Fprintf(&sb, "def bridgeFrontend_setsLinger : Bool := %v  -- %s: a SetLinger call on the accepted client connection\n", strings.Contains(txt, ".SetLinger("), rel)
+	}
 	// the VM identity refresh (every 10 s on GCE) must not fetch the new token from the metadata server while it holds
 	// the lock that every request to the proxy - including the upload of a streamed response - takes to read the token
 	{
